@@ -290,6 +290,15 @@ def strip_set(j):
 def rt_oracle(sc, iout, mout):
     """C05/C06 observed directly, inside the fragment the theorems cover (RTSafe, decided by the Lean model for this
     converter; unions need the per-value condition RTOk and are judged by correspondence only)"""
+    if sc.get('stream') == 'union-boundary' and isinstance(iout, dict):
+        # a left member refuses the value BY VALUE: that is a parse failure of that member, the union goes on
+        if iout.get('raises') not in (None, 'ConvertError'):
+            return f"the conversion raised {iout['raises']} instead of going on to the next member of the union"
+        if 'd_raises' in iout:
+            return f"serialising the typed value raised {iout['d_raises']}"
+        x2 = iout.get('x2')
+        if isinstance(x2, dict) and x2.get('raises') not in (None, 'ConvertError'):
+            return f"converting the typed value again raised {x2['raises']}"
     m = mout.get('out') if isinstance(mout, dict) else None
     if not (isinstance(m, dict) and m.get('rtsafe')) or not isinstance(iout, dict) or 'x' not in iout:
         return None
@@ -369,9 +378,10 @@ PLUGS = {
                 with_oracles(gen.scenarios_tagged(seed + 4, sizes(tier, 400, 6000)), [], op='from_data') +
                 gen.scenarios_unsupported(seed, sizes(tier, 200, 2000)) + [dict(sc, oracles=[]) for sc in matrix_stream(seed + 1)],
                 project=proj_verdict_value, oracles=[], disagreement_is_failure=True),
-    'C02': dict(streams=lambda seed, tier: matrix_stream(seed) + conv_stream(seed, sizes(tier, 500, 10000), 'from_data', []) +
+    'C02': dict(streams=lambda seed, tier: [dict(sc, same_builtin_handler=['int', 'float', 'str', 'bytes', 'complex', 'bool'][k % 6], oracles=['c02h'])
+                                            for k, sc in enumerate(matrix_stream(seed))] + conv_stream(seed, sizes(tier, 500, 10000), 'from_data', []) +
                 gen.scenarios_tuplelayout(seed + 2, sizes(tier, 500, 8000)) + gen.scenarios_generic_nested(seed, sizes(tier, 300, 4000)),
-                project=proj_verdict_value, oracles=[], disagreement_is_failure=True, exhaustive_part='matrix'),
+                project=proj_verdict_value, oracles=['c02h'], disagreement_is_failure=True, exhaustive_part='matrix'),
     'C03': dict(streams=lambda seed, tier: conv_stream(seed, sizes(tier, 1500, 30000), 'try_collect', ['c03']) +
                 with_oracles(gen.scenarios_cond(seed, sizes(tier, 700, 10000)), ['c03'], op='try_collect') +
                 with_oracles(gen.scenarios_shapes(seed, sizes(tier, 500, 8000), op='try_collect'), ['c03']) +
@@ -390,12 +400,14 @@ PLUGS = {
                 project=proj_verdict_value, oracles=['c04'], disagreement_is_failure=False),
     'C05': dict(streams=lambda seed, tier: valid_stream(seed, sizes(tier, 2000, 30000), 'roundtrip') + gen.scenarios_union_history(seed, sizes(tier, 250, 3000)) +
                 [dict(s, op='roundtrip') for s in gen.scenarios_tuplelayout(seed, sizes(tier, 400, 6000))] +
-                [dict(s, op='roundtrip') for s in gen.scenarios_tagged(seed + 4, sizes(tier, 500, 8000))],
+                [dict(s, op='roundtrip') for s in gen.scenarios_tagged(seed + 4, sizes(tier, 500, 8000))] +
+                gen.scenarios_union_boundary(seed, sizes(tier, 200, 3000), ops=('roundtrip',)),
                 project=proj_full, oracles=[], disagreement_is_failure=True, post_oracle=rt_oracle),
     'C06': dict(streams=lambda seed, tier: valid_stream(seed, sizes(tier, 2000, 30000), 'convert2', history=0.4) + gen.scenarios_union_history(seed, sizes(tier, 300, 4000), op='convert2') +
                 [dict(s, op='convert2') for s in gen.scenarios_tuplelayout(seed, sizes(tier, 500, 8000))] +
                 twin_stream(seed, sizes(tier, 100, 1500), op='convert2') +
-                [dict(sc, op='convert2') for sc in gen.scenarios_tagged(seed + 4, sizes(tier, 500, 8000))],
+                [dict(sc, op='convert2') for sc in gen.scenarios_tagged(seed + 4, sizes(tier, 500, 8000))] +
+                gen.scenarios_union_boundary(seed, sizes(tier, 250, 3000), ops=('convert2',)),
                 project=proj_full, oracles=[], disagreement_is_failure=True, post_oracle=rt_oracle),
     'C07': dict(streams=lambda seed, tier: conv_stream(seed, sizes(tier, 1500, 30000), 'try_collect', ['c07']) +
                 with_oracles(gen.scenarios_special_unions(seed, sizes(tier, 400, 5000), op='try_collect'), ['c07']) +
@@ -420,7 +432,8 @@ PLUGS = {
     'C11': dict(streams=lambda seed, tier: with_history(union_stream(seed, sizes(tier, 1200, 20000)), seed) + twin_stream(seed, sizes(tier, 100, 1500)) +
                 with_history(union_stream(seed + 7, sizes(tier, 300, 5000), op='roundtrip'), seed + 1, 0.5) + gen.scenarios_union_history(seed, sizes(tier, 250, 3000)) +
                 [sc for sc in gen.scenarios_tagged(seed + 4, sizes(tier, 1200, 15000)) if 'union' in sc['ty']] +
-                with_oracles(gen.scenarios_special_unions(seed, sizes(tier, 400, 5000)), ['c11']),
+                with_oracles(gen.scenarios_special_unions(seed, sizes(tier, 400, 5000)), ['c11']) +
+                with_oracles(gen.scenarios_union_boundary(seed, sizes(tier, 300, 4000), ops=('from_data', 'roundtrip')), ['c11']),
                 project=proj_verdict_value, oracles=['c11'], disagreement_is_failure=True),
     'C12': dict(streams=lambda seed, tier: gen.scenarios_tagged(seed, sizes(tier, 1500, 25000)) +
                 with_defaultdicts(gen.scenarios_tagged(seed + 9, sizes(tier, 600, 8000)), seed),
@@ -443,7 +456,7 @@ PLUGS = {
                 project=proj_full, oracles=['c16'], disagreement_is_failure=True, exhaustive_part='hashcube'),
     'C17': dict(streams=lambda seed, tier: gen.scenarios_process(seed, sizes(tier, 1500, 25000), generic_share=0.7) +
                 gen.scenarios_generic_nested(seed, sizes(tier, 300, 4000)),
-                project=proj_full, oracles=[], disagreement_is_failure=True),
+                project=proj_full, oracles=['c17'], disagreement_is_failure=True),
     'C18': dict(streams=lambda seed, tier: gen.scenarios_handlers(seed, sizes(tier, 2500, 30000)) + gen.scenarios_reach(seed, sizes(tier, 500, 6000)) +
                 [s for s in gen.scenarios_process(seed, sizes(tier, 600, 6000), generic_share=0.0) if 'custom' in json.dumps(s['decls'])],
                 project=proj_full, oracles=['c18'], disagreement_is_failure=True),
